@@ -194,17 +194,18 @@ Inductive cli_out :=
   | CRaise (e : exn)              (* uncaught exception: traceback, exit status UNKNOWN_ERROR *)
   | COk (host : string) (port : Z).
 
-(* single target: positional argument `arg`, value of -p if given *)
+Definition default_port (oport : option Z) : Z := match oport with Some p => p | None => 22 end.
+Definition oport_ok (oport : option Z) : bool := match oport with Some p => port_ok p | None => true end.
+(* single target: positional argument `arg`, value of -p if given.  -p is only the default port: the argument is
+   always parsed (fix 9a2ac5a); then `not host` -> exit, bad -p -> exit, `aconf.port = port` -> ValueError *)
 Definition cli_single (arg : string) (oport : option Z) : cli_out :=
   if is_empty arg then CExit else
-  match (match oport with Some _ => Ok (arg, 22) | None => parse_host_and_port arg 22 end) with
+  match parse_host_and_port arg (default_port oport) with
   | Raise e => CRaise e
   | Ok (host, port) =>
       if is_empty host then CExit else
-      match oport with
-      | Some p => if port_ok p then COk host p else CExit
-      | None => if port_ok port then COk host port else CRaise ValueError
-      end
+      if negb (oport_ok oport) then CExit else
+      if port_ok port then COk host port else CRaise ValueError
   end.
 
 (* ---------- targets file ---------- *)
@@ -231,13 +232,24 @@ Fixpoint lines (s : string) : list string :=
            | l :: ls => String c l :: ls
            end
   end.
-Definition keep_line (l : string) : bool := negb (String.eqb l EmptyString) && negb (String.eqb l (String c_nl EmptyString)).
+(* `if target.strip() != ""` (fix b3020b9) *)
+Definition keep_line (l : string) : bool := negb (is_empty (strip l)).
 Definition file_lines (content : string) : list string := map strip (filter keep_line (lines (univ_nl content))).
 
 Fixpoint map_res {A B} (f : A -> res B) (l : list A) : res (list B) :=
   match l with
   | [] => Ok []
   | x :: r => do y <- f x; do ys <- map_res f r; Ok (y :: ys)
+  end.
+(* process_commandline: every entry is parsed and its port checked, in order, before anything is scanned (fix b3020b9) *)
+Inductive validation := VOk | VExit | VCrash.
+Fixpoint validate (ts : list string) (default : Z) : validation :=
+  match ts with
+  | [] => VOk
+  | t :: r => match parse_host_and_port t default with
+              | Raise _ => VCrash
+              | Ok (_, p) => if port_ok p then validate r default else VExit
+              end
   end.
 (* main(): Utils.parse_host_and_port(target, default_port=aconf.port) for every entry *)
 Definition file_targets (content : string) (default : Z) : res (list (string * Z)) :=
@@ -254,8 +266,9 @@ Definition gai_family (pref : list Z) : Z :=
   match pref with [v] => if v =? 4 then AF_INET else AF_INET6 | _ => 0 end.
 (* getaddrinfo(host, port, family, SOCK_STREAM): None = socket.gaierror.  Contract of the (synthetic) resolver:
    only entries of the requested family are returned, in table order. *)
+Definition table (r : resolver) (host : string) : list entry := match assoc host r with Some l => l | None => [] end.
 Definition gai (r : resolver) (host : string) (fam : Z) : option (list entry) :=
-  match filter (fun e => (fam =? 0) || (fam =? e_fam e)) (match assoc host r with Some l => l | None => [] end) with
+  match filter (fun e => (fam =? 0) || (fam =? e_fam e)) (table r host) with
   | [] => None
   | l => Some l
   end.
@@ -269,12 +282,15 @@ Definition sort_fam (reverse : bool) (l : list entry) : list entry :=
   fold_right (insert_fam (if reverse then Z.gtb else Z.ltb)) [] l.
 Definition order_pref (pref : list Z) (l : list entry) : list entry :=
   match pref with [a; _] => sort_fam (a =? 6) l | _ => l end.
+Definition fam_is (f : Z) (e : entry) : bool := e_fam e =? f.
+(* every answer is IPv4 or IPv6 *)
+Definition dual (l : list entry) : Prop := Forall (fun e => e_fam e = AF_INET \/ e_fam e = AF_INET6) l.
 (* SSH_Socket._resolve: what connect() iterates over *)
 Definition resolve_list (pref : list Z) (l : list entry) : list entry :=
   filter (fun e => e_type e =? SOCK_STREAM) (order_pref pref l).
-(* DHEat._resolve_hostname: first stream entry, the preference ORDER is not applied *)
-Definition rate_first (l : list entry) : option entry :=
-  hd_error (filter (fun e => e_type e =? SOCK_STREAM) l).
+(* DHEat._resolve_hostname: first stream entry after the same stable sort (fix 976e983) *)
+Definition rate_first (pref : list Z) (l : list entry) : option entry :=
+  hd_error (filter (fun e => e_type e =? SOCK_STREAM) (match pref with [a; _] => sort_fam (a =? 6) l | _ => l end)).
 
 (* what one audit of (host, port) does when every connect() is refused *)
 Record obs := { o_gai : list (string * Z * Z);       (* getaddrinfo(host, port, family) *)
@@ -310,25 +326,28 @@ Definition run_single (arg : string) (oport : option Z) (flags : list Z) (r : re
   | COk h p => RDone [audit_refused (pref_of_flags flags) r h p]
   end.
 
-(* -T file: process_commandline + main() + target_worker_thread (`my_aconf.port = port` is outside the try) *)
+(* -T file: process_commandline (bad -p, empty list and bad ports end the run before any scan) + main() + workers *)
 Definition run_file (content : string) (oport : option Z) (flags : list Z) (r : resolver) : run_out :=
   let pref := pref_of_flags flags in
-  match (match oport with Some p => if port_ok p then Some p else None | None => Some 22 end) with
-  | None => RExit
-  | Some d =>
-      match file_lines content with
-      | [] => RDone [audit_refused pref r EmptyString d]      (* no entry left: falls into the single-target branch with host '' *)
-      | _ =>
-          match file_targets content d with
-          | Raise _ => RCrash []
-          | Ok ts =>
-              let audits := map (fun t => audit_refused pref r (fst t) (snd t)) (filter (fun t => port_ok (snd t)) ts) in
-              if forallb (fun t => port_ok (snd t)) ts then RDone audits else RCrash audits
-          end
+  if negb (oport_ok oport) then RExit else
+  let d := default_port oport in
+  match file_lines content with
+  | [] => RExit                                   (* "no targets found in file" *)
+  | ts =>
+      match validate ts d with
+      | VExit => RExit
+      | VCrash => RCrash []
+      | VOk => match file_targets content d with
+               | Ok l => RDone (map (fun t => audit_refused pref r (fst t) (snd t)) l)
+               | Raise _ => RCrash []
+               end
       end
   end.
 
 Definition obs_of (o : run_out) : list obs := match o with RExit => [] | RCrash l => l | RDone l => l end.
+(* every port handed to getaddrinfo / connect lies in 1..65535 *)
+Definition ports_valid (o : obs) : Prop :=
+  (forall g, In g (o_gai o) -> port_ok (snd (fst g)) = true) /\ (forall c, In c (o_conn o) -> port_ok (snd c) = true).
 
 (* ---------- the documented spellings of a target ---------- *)
 Inductive form :=
@@ -366,16 +385,16 @@ Definition form_ok (f : form) : bool :=
 Definition form_has_port_or_brackets (f : form) : bool := match f with FHost _ | FV6 _ => false | _ => true end.
 
 (* one line of a targets file *)
-Inductive item := Blank | Tgt (pad1 : string) (f : form) (pad2 : string).
+Inductive item := Blank (pad : string) | Tgt (pad1 : string) (f : form) (pad2 : string).   (* Blank: empty or whitespace-only line *)
 Definition pad_char (c : ascii) : bool := is_space c && negb (Ascii.eqb c c_nl) && negb (Ascii.eqb c c_cr).
 Definition item_ok (i : item) : bool :=
-  match i with Blank => true | Tgt a f b => forall_s pad_char a && forall_s pad_char b && form_ok f end.
+  match i with Blank a => forall_s pad_char a | Tgt a f b => forall_s pad_char a && forall_s pad_char b && form_ok f end.
 Definition render_item (i : item) : string :=
-  match i with Blank => String c_nl EmptyString | Tgt a f b => (a ++ spell f ++ b ++ String c_nl EmptyString)%string end.
+  match i with Blank a => (a ++ String c_nl EmptyString)%string | Tgt a f b => (a ++ spell f ++ b ++ String c_nl EmptyString)%string end.
 Fixpoint render (l : list item) : string :=
   match l with [] => EmptyString | i :: r => (render_item i ++ render r)%string end.
 Fixpoint forms_of (l : list item) : list form :=
-  match l with [] => [] | Blank :: r => forms_of r | Tgt _ f _ :: r => f :: forms_of r end.
+  match l with [] => [] | Blank _ :: r => forms_of r | Tgt _ f _ :: r => f :: forms_of r end.
 
 (* equality tests used by the correspondence case files *)
 Definition ep_eqb (a b : string * Z) : bool := String.eqb (fst a) (fst b) && (snd a =? snd b).
@@ -426,16 +445,13 @@ Definition targets_single (arg : string) (oport : option Z) : option (list (stri
   match cli_single arg oport with COk h p => Some [(h, p)] | _ => None end.
 (* Some = the run completes and audits these targets *)
 Definition targets_file (content : string) (oport : option Z) : option (list (string * Z)) :=
-  match (match oport with Some p => if port_ok p then Some p else None | None => Some 22 end) with
-  | None => None
-  | Some d =>
-      match file_lines content with
-      | [] => Some [(EmptyString, d)]
-      | _ => match file_targets content d with
-             | Ok ts => if forallb (fun t => port_ok (snd t)) ts then Some ts else None
-             | Raise _ => None
-             end
-      end
+  if negb (oport_ok oport) then None else
+  match file_lines content with
+  | [] => None
+  | ts => match validate ts (default_port oport) with
+          | VOk => match file_targets content (default_port oport) with Ok l => Some l | Raise _ => None end
+          | _ => None
+          end
   end.
 Definition pj_label (h : string) (p : Z) : string := (h ++ "|" ++ dec p)%string.   (* policy JSON: "host" and "port" fields *)
 Definition peer_report (lab : string -> Z -> string) (pref : list Z) (r : resolver) (t : string * Z) : string :=
